@@ -20,7 +20,8 @@ CONSTANTS DefaultCopied,   \* TRUE: schema defaults are deep-copied before use (
 Acc(k, x) == <<k, x>>
 
 Ops == {"find_mux", "find_legacy", "vreq_params", "vreq_params_delete", "vreq_body_pattern_first", "vreq_body_pattern_again", "vreq_body_unique",
-        "vreq_body_defaults", "vresp", "visitjson", "gen_newtype", "gen_sametype", "vreq_body_pattern_customregex", "vreq_secure_body"}
+        "vreq_body_defaults", "vresp", "visitjson", "gen_newtype", "gen_sametype", "vreq_body_pattern_customregex", "vreq_secure_body",
+        "vreq_multipart_addprops", "vreq_json_addprops", "vreq_form_sharedopts", "vreq_json_defaults_sharedopts"}
 
 Accesses(op) ==
    CASE op = "find_mux" ->
@@ -34,6 +35,10 @@ Accesses(op) ==
      [] op = "vreq_body_pattern_again" -> <<Acc("R", "doc.schema"), Acc("A", "patternCache")>>
      [] op = "vreq_secure_body" ->      \* security + body: the body is buffered around the authentication callback in request-local memory
           <<Acc("R", "doc.security"), Acc("R", "doc.securitySchemes"), Acc("R", "doc.schema")>>
+     [] op \in {"vreq_multipart_addprops", "vreq_json_addprops"} ->      \* the decoders only READ the schema's property maps
+          <<Acc("R", "doc.schema"), Acc("R", "doc.schema.properties"), Acc("R", "bodyDecoders")>>
+     [] op \in {"vreq_form_sharedopts", "vreq_json_defaults_sharedopts"} ->     \* the caller's Options are configuration: read, never written
+          <<Acc("R", "caller.options"), Acc("R", "doc.schema"), Acc("R", "bodyDecoders")>>
      [] op = "vreq_body_unique" -> <<Acc("R", "doc.schema"), Acc("R", "uniqueChecker")>>
      [] op = "vreq_body_defaults" ->
           <<Acc("R", "doc.schema"), Acc("R", "doc.schema.default")>>
@@ -53,6 +58,10 @@ Verdicts(op) ==
      [] op = "vreq_body_pattern" -> <<"ok", "reject", "reject">>                \* matching / foreign / upper-cased text
      [] op = "vreq_body_pattern_customregex" -> <<"ok", "reject", "ok">>        \* upper-cased / foreign / matching text
      [] op = "vreq_secure_body" -> <<"ok", "reject", "ok">>
+     [] op = "vreq_multipart_addprops" -> <<"ok", "ok", "ok">>
+     [] op = "vreq_json_addprops" -> <<"ok", "reject", "ok">>
+     [] op = "vreq_form_sharedopts" -> <<"ok", "ok", "ok">>               \* (every variant carries "kind": no default has to be written into a urlencoded body)
+     [] op = "vreq_json_defaults_sharedopts" -> <<"ok", "reject", "ok">>
      [] op = "vreq_body_unique" -> <<"reject", "ok", "reject">>
      [] op = "vreq_body_defaults" -> <<"ok", "ok", "ok">>
      [] op = "vresp" -> <<"ok", "reject", "ok">>
